@@ -199,8 +199,9 @@ def main():
         'wall_s': round(time.time() - t0, 2),
         'violations': len(violations),
     }
-    os.makedirs(os.path.join(VERIF, 'evidence'), exist_ok=True)
-    with open(os.path.join(VERIF, 'evidence', pid + '.json'), 'w') as f:
+    evdir = os.environ.get('VERIF_EVIDENCE_DIR', os.path.join(VERIF, 'evidence'))
+    os.makedirs(evdir, exist_ok=True)
+    with open(os.path.join(evdir, pid + '.json'), 'w') as f:
         json.dump(ev, f, indent=1)
 
     seen_k = set()
@@ -212,7 +213,8 @@ def main():
     # listed findings that did not show up at all (e.g. fixed upstream): say so, no alarm
     rc = 0
     if violations:
-        os.makedirs(os.path.join(VERIF, 'replay'), exist_ok=True)
+        rdir = os.path.join(VERIF, 'replay') if 'VERIF_EVIDENCE_DIR' not in os.environ else os.path.join(os.environ['VERIF_EVIDENCE_DIR'], 'replay')
+        os.makedirs(rdir, exist_ok=True)
         seen = set()
         n = 0
         for f in violations:
@@ -220,7 +222,7 @@ def main():
                 continue
             seen.add(f['obligation'])
             n += 1
-            rp = os.path.join(VERIF, 'replay', '%s-%d.json' % (pid, n))
+            rp = os.path.join(rdir, '%s-%d.json' % (pid, n))
             cex = None
             try:
                 import kanirun
